@@ -106,6 +106,7 @@ def project(scfg: SCFG, pids: PayloadIds | None = None) -> Dict[str, Any]:
     H: Dict[str, Any] = {}
     order: Dict[str, List[str]] = {}
     dup: List[str] = []
+    bp: Dict[str, Any] = {}
     root = str(scfg.region.name)
 
     def walk(g: SCFG, up: str, depth: int) -> None:
@@ -122,6 +123,13 @@ def project(scfg: SCFG, pids: PayloadIds | None = None) -> Dict[str, Any]:
             if str(b.name) != name:
                 dup.append(name + "!=" + str(b.name))
             if isinstance(b, bb.RegionBlock) and b.subregion is not None:
+                # what the region's OWN sub-graph says about the region it represents (SCFG.region): it must be this region
+                back = b.subregion.region
+                bpr = getattr(back, "parent_region", None)
+                bp[name] = {"name": str(getattr(back, "name", "")), "kind": str(getattr(back, "kind", "")),
+                            "parent": "" if bpr is None else str(getattr(bpr, "name", "?")),
+                            "header": str(getattr(back, "header", "")), "exiting": str(getattr(back, "exiting", "")),
+                            "jt": [str(x) for x in getattr(back, "_jump_targets", ())]}
                 walk(b.subregion, name, depth + 1)
 
     walk(scfg, root, 0)
@@ -130,6 +138,7 @@ def project(scfg: SCFG, pids: PayloadIds | None = None) -> Dict[str, Any]:
         "ord": order,
         "root": root,
         "dup": dup,
+        "bp": bp,
         "ng": dict(scfg.name_gen.kinds),
     }
 
